@@ -437,5 +437,5 @@ def run(acc, tier):
         engine.pmap(acc, shard_generated, extra=(60, 60, 100, 2))
     else:
         engine.pmap(acc, shard_exhaustive, extra=(1, 3))
-        engine.pmap(acc, shard_generated, extra=(300, 300, 600, 3))
-        engine.fuzz(acc, "hyp:add_point", CHECKS, 1500, max_len=2048)
+        engine.pmap(acc, shard_generated, extra=(1500, 1500, 3000, 3))
+        engine.fuzz(acc, "hyp:add_point", CHECKS, 10000, max_len=2048)
